@@ -4,6 +4,7 @@ import Uom.Proofs.FlConvIdentity
 import Uom.Gen.Table
 import Uom.Gen.Names
 import Uom.Proofs.BodyEq.Trig
+import Uom.Proofs.BodyEq.TrigRx
 /-!
 # C18 — angle and ratio functions act on the dimensionless magnitude, whatever the unit
 
@@ -125,5 +126,16 @@ theorem src_angle_ratio (N : NumTy) (env : Env N) (a b : N.S.V) :
   ⟨rfl, rfl, rfl, rfl, rfl, rfl, rfl, rfl, rfl, rfl, rfl, rfl, rfl, rfl, rfl, rfl, rfl, rfl, rfl, rfl, rfl⟩
 
 end SourceTie
+
+/-! ### tie to the source: `Angle::sin_cos` (tuple pattern; Rx form) regenerated from /repo/src/si/angle.rs -/
+section SourceTieRx
+open Uom.Rx Uom.Gen.RxBody Uom.BodyEq.TrigRx
+
+/-- `sin_cos` returns (sine, cosine) of the *stored* magnitude, in that order, each re-wrapped as a ratio -/
+theorem src_sin_cos {V : Type} (sc : V → V × V) (x : V) :
+    run (envSinCos sc) si_angle_inherent_Angle_sin_cos [.host (.ang x)] =
+      (.val (.tup2 (.host (.ratio (sc x).1)) (.host (.ratio (sc x).2))), []) := sin_cos_eq sc x
+
+end SourceTieRx
 
 end Uom.C18
